@@ -406,7 +406,25 @@ class Orchestrator:  # thailint: ignore[srp]
 
         with ProcessPoolExecutor(max_workers=max_workers) as executor:
             futures = [executor.submit(_lint_file_worker, item) for item in work_items]
+            # Cross-file rules keep their evidence in the process that ran check(); gather it
+            # here (while the workers run) so _finalize_rules() sees every file
+            self._collect_cross_file_evidence(file_paths)
             return self._collect_parallel_results(futures)
+
+    def _collect_cross_file_evidence(self, file_paths: list[Path]) -> None:
+        """Run check() of rules that have a finalize() phase in this process."""
+        self._ensure_rules_discovered()
+        rules = [
+            rule
+            for rule in self.registry.list_all()
+            if type(rule).finalize is not BaseLintRule.finalize
+        ]
+        for file_path in file_paths:
+            if _is_hardcoded_excluded(file_path) or self.ignore_parser.is_ignored(file_path):
+                continue
+            metadata = {**self.config, "_project_root": self.project_root}
+            context = FileLintContext(file_path, detect_language(file_path), metadata=metadata)
+            self._execute_rules(rules, context)  # per-file results come from the workers
 
     def _collect_parallel_results(self, futures: list[Future[list[dict]]]) -> list[Violation]:
         """Collect results from parallel futures."""
